@@ -2122,7 +2122,8 @@ theorem c01_shape_Overlay_handleSendTree :
     Shapes.overlay_Overlay_handleSendTree =
    ["if:((rt.TreeMarshal==nil)||rt.TreeMarshal.TreeID.IsNil())", "return:",
      "if:(rt.Roster==nil)", "return:", "if:!o.treeStorage.IsRequested(rt.TreeMarshal.TreeID)",
-     "return:", "TreeMarshal.MakeTree", "if:(err!=nil)", "return:", "o.RegisterTree"] := rfl
+     "return:", "TreeMarshal.MakeTree", "if:(err!=nil)", "return:", "treeStorage.setIfMissing",
+     "if:!stored", "return:", "o.checkPendingMessages"] := rfl
 
 theorem c01_shape_TreeNodeInstance_SendTo :
     Shapes.treenode_TreeNodeInstance_SendTo =
